@@ -16,7 +16,9 @@ ID = "C16"
 RULE = (
     "Generated projects (whole-slot and sub-slot efforts, DAGs, leaves, limits on resources / groups / tasks in about "
     "half of the cases, teams) with a scenario tree of 1-4 scenarios (depth <= 3) and scenario-specific effort / start "
-    "/ end overrides on random tasks, written after (main class) or before the plain attribute. Oracle: for every "
+    "/ end overrides on random tasks, written after (main class) or before the plain attribute; campaign alap_anchors: "
+    "forward projects with task-level ALAP chains where the deadline of an ALAP task and the pinned start of other "
+    "tasks are scenario specific. Oracle: for every "
     "scenario k the dates of scenario index k equal those of a single-scenario run of the text in which k's effective "
     "values (own override, else nearest overriding ancestor scenario, else the plain value) are written as plain "
     "attributes; hence adding scenarios leaves existing ones unchanged and a scenario without overrides equals its "
@@ -46,11 +48,12 @@ PF = gen.Profile(
     max_slots=10,
     leaves=True,
 )
+PF_ANCH = replace(PF, alap_project=False, alap_task=True, alap_chains=True, limits=False, task_limits=False, deps=0.7)
 PF_SUB = replace(PF, subslot=True, odd_eff=True, limits=False, task_limits=False)
 
 
 @st.composite
-def cases(draw, pf, before_class=False):
+def cases(draw, pf, before_class=False, anchors=False):
     spec = draw(gen.project_specs(pf))
     scids = spec.scenario_ids()
     res_min = spec.res_min
@@ -70,6 +73,15 @@ def cases(draw, pf, before_class=False):
                 kinds.append("start")
             if spec.sched == "alap" and p not in has_succ and t.end is not None:
                 kinds.append("end")
+            if anchors:
+                # forward project with task-level ALAP: the deadline of an ALAP task and the pinned start of
+                # anything else decide who is pulled backward by the ALAP propagation - per scenario
+                from .. import rules
+
+                if rules.explicit_backward(spec, p):
+                    kinds += ["end", "end"]
+                elif t.effort is not None and "start" not in kinds:
+                    kinds.append("start")
             if not kinds:
                 continue
             k = draw(st.sampled_from(kinds))
@@ -193,6 +205,8 @@ def campaigns(tier):
                  describe="scenario trees with effort/start/end overrides written after the plain attribute; limits in half the cases"),
         Campaign("scenarios_subslot", "hyp", evaluate=eval_case, strategy=lambda: cases(PF_SUB), n=250 if q else 5000,
                  describe="the same with sub-slot efforts"),
+        Campaign("alap_anchors", "hyp", evaluate=eval_case, strategy=lambda: cases(PF_ANCH, anchors=True), n=400 if q else 8000,
+                 describe="forward projects with task-level ALAP chains; scenario-specific deadlines of ALAP tasks and pinned starts of their predecessors"),
         Campaign("override_before_plain", "hyp", evaluate=eval_case, strategy=lambda: cases(PF, before_class=True), n=250 if q else 5000,
                  describe="class: scenario-specific attribute written before the plain attribute"),
     ]
